@@ -58,7 +58,9 @@ const (
 type clusterSim struct {
 	id          string // cluster id + incarnation
 	info        *clusters.ClusterInfo
-	client      *k8sfake.Clientset
+	clients     [2]*k8sfake.Clientset // one API client per endpoint of the cluster
+	down        [2]bool               // endpoint is not a ready endpoint of the cluster any more (guarded by provider.mu; never both)
+	rr          int
 	unavailable bool
 	tokens      map[string]answer // allow = authenticated
 	sar         map[string]answer
@@ -88,6 +90,7 @@ type provider struct {
 	hosts   map[string]*clusterSim
 	current string   // host of the request being served
 	invoked []string // cluster ids whose API was invoked during the current request
+	stale   string   // set when a review arrived at an endpoint that was not ready at that moment
 }
 
 func (p *provider) ClientFor(name string) (*clusters.ClusterInfo, kubernetes.Interface, error) {
@@ -100,7 +103,13 @@ func (p *provider) ClientFor(name string) (*clusters.ClusterInfo, kubernetes.Int
 	if c.unavailable {
 		return c.info, nil, clusters.ErrNoReadyEndpoints
 	}
-	return c.info, c.client, nil
+	// round robin over the ready endpoints, as the cluster's own picker does
+	c.rr++
+	k := c.rr % 2
+	if c.down[k] {
+		k = 1 - k
+	}
+	return c.info, c.clients[k], nil
 }
 
 func sarKey(s authorizationv1.SubjectAccessReviewSpec) string {
@@ -110,13 +119,17 @@ func sarKey(s authorizationv1.SubjectAccessReviewSpec) string {
 	return s.User + "|" + s.NonResourceAttributes.Verb + "|" + s.NonResourceAttributes.Path
 }
 
-func newClusterSim(p *provider, id string, tokens, sar map[string]answer) *clusterSim {
-	c := &clusterSim{id: id, tokens: tokens, sar: sar}
-	c.info = clusters.NewEmptyClusterInfo(id, nil, nil, "", nil)
-	c.client = k8sfake.NewSimpleClientset()
-	c.client.PrependReactor("create", "tokenreviews", func(action clienttesting.Action) (bool, k8sruntime.Object, error) {
+// install creates the API client of endpoint ep of the cluster: both endpoints answer from the cluster's tables.
+func (c *clusterSim) install(p *provider, ep int) {
+	id := c.id
+	client := k8sfake.NewSimpleClientset()
+	c.clients[ep] = client
+	client.PrependReactor("create", "tokenreviews", func(action clienttesting.Action) (bool, k8sruntime.Object, error) {
 		p.mu.Lock()
 		p.invoked = append(p.invoked, id)
+		if c.down[ep] {
+			p.stale = fmt.Sprintf("%s, endpoint %d", id, ep)
+		}
 		p.mu.Unlock()
 		c.wait(p)
 		tr := action.(clienttesting.CreateAction).GetObject().(*authenticationv1.TokenReview).DeepCopy()
@@ -130,9 +143,12 @@ func newClusterSim(p *provider, id string, tokens, sar map[string]answer) *clust
 		}
 		return true, tr, nil
 	})
-	c.client.PrependReactor("create", "subjectaccessreviews", func(action clienttesting.Action) (bool, k8sruntime.Object, error) {
+	client.PrependReactor("create", "subjectaccessreviews", func(action clienttesting.Action) (bool, k8sruntime.Object, error) {
 		p.mu.Lock()
 		p.invoked = append(p.invoked, id)
+		if c.down[ep] {
+			p.stale = fmt.Sprintf("%s, endpoint %d", id, ep)
+		}
 		p.mu.Unlock()
 		c.wait(p)
 		p.mu.Lock()
@@ -156,6 +172,14 @@ func newClusterSim(p *provider, id string, tokens, sar map[string]answer) *clust
 		}
 		return true, r, nil
 	})
+}
+
+func newClusterSim(p *provider, id string, tokens, sar map[string]answer) *clusterSim {
+	c := &clusterSim{id: id, tokens: tokens, sar: sar}
+	c.info = clusters.NewEmptyClusterInfo(id, nil, nil, "", nil)
+	for ep := range c.clients {
+		c.install(p, ep)
+	}
 	return c
 }
 
@@ -208,7 +232,7 @@ func ctxFor(host string) context.Context {
 }
 
 func TestPropNoCrossClusterDecisions(t *testing.T) {
-	sub := stats.NewSub("request-sequences-over-hosts", "rapid: 2-3 clusters x 1-2 hosts each, per-cluster answer tables (token -> user / reject / error; (user, attributes) -> allow / deny / no opinion / error) that differ between clusters for the same key, cache TTLs in {0, 50 ms, 10 min}; a sequence of 5-40 ops: authenticate(host, token), authorize(host, user, attributes), cluster cannot be asked on/off, stop + recreate a cluster with new tables, an alias re-homed to another cluster (also while a review for it is in flight at the old cluster: later requests must get the new cluster's answer; or between a failed first attempt of a review and its retry: the request is decided by the cluster it was resolved to), and the same token / (user, attributes) presented to two clusters at the same time (the first review is held at its cluster until the second request was decided); oracle: every result is the answer of the host's own cluster (the user name carries the cluster id), only that cluster's API is invoked during the request, a cluster that cannot be asked yields not-authenticated / deny with an error; non-trivial = the same token / (user, attributes) was presented to >= 2 clusters with different answers while caching is on; distinct by FNV-64 of the op trace")
+	sub := stats.NewSub("request-sequences-over-hosts", "rapid: 2-3 clusters x 1-2 hosts each, per-cluster answer tables (token -> user / reject / error; (user, attributes) -> allow / deny / no opinion / error) that differ between clusters for the same key, cache TTLs in {0, 50 ms, 10 min}; a sequence of 5-40 ops: authenticate(host, token), authorize(host, user, attributes), cluster cannot be asked on/off, one of the two endpoints of a cluster stops being ready / comes back (each endpoint has its own API client, the provider hands out ready ones in turn), stop + recreate a cluster with new tables, an alias re-homed to another cluster (also while a review for it is in flight at the old cluster: later requests must get the new cluster's answer; or between a failed first attempt of a review and its retry: the request is decided by the cluster it was resolved to), and the same token / (user, attributes) presented to two clusters at the same time (the first review is held at its cluster until the second request was decided); oracle: every result is the answer of the host's own cluster (the user name carries the cluster id), only that cluster's API is invoked during the request and only at an endpoint that is ready at that moment, a cluster that cannot be asked yields not-authenticated / deny with an error; non-trivial = the same token / (user, attributes) was presented to >= 2 clusters with different answers while caching is on; distinct by FNV-64 of the op trace")
 	known := findings.Open(aliasMoveFinding)
 	stats.Check(t, stats.N(1500, 10000), func(t *rapid.T) {
 		p := &provider{hosts: map[string]*clusterSim{}}
@@ -327,9 +351,28 @@ func TestPropNoCrossClusterDecisions(t *testing.T) {
 		}
 		steps := rapid.IntRange(5, 40).Draw(t, "steps")
 		for i := 0; i < steps; i++ {
+			p.mu.Lock()
+			stale := p.stale
+			p.mu.Unlock()
+			if stale != "" {
+				t.Fatalf("a review was sent to an endpoint that was not a ready endpoint of its cluster at that moment (%s)\ntrace: %s", stale, trace)
+			}
 			switch rapid.IntRange(0, 16).Draw(t, "op") {
 			case 0:
 				c := rapid.IntRange(0, nClusters-1).Draw(t, "cluster")
+				if rapid.Bool().Draw(t, "oneEndpoint") {
+					// one endpoint of the cluster stops being ready (disabled, unhealthy, removed from the spec) or comes
+					// back; the other one stays: the cluster can be asked, every review belongs to the ready one
+					k := rapid.IntRange(0, 1).Draw(t, "endpoint")
+					p.mu.Lock()
+					if sims[c].down[k] || !sims[c].down[1-k] {
+						sims[c].down[k] = !sims[c].down[k]
+					}
+					trace += fmt.Sprintf("endpoint(c%d,%d).down=%v;", c, k, sims[c].down[k])
+					p.mu.Unlock()
+					sub.Class("endpoint-readiness-changed")
+					continue
+				}
 				sims[c].unavailable = !sims[c].unavailable
 				trace += fmt.Sprintf("unavailable(c%d)=%v;", c, sims[c].unavailable)
 			case 1:
@@ -587,6 +630,12 @@ func TestPropNoCrossClusterDecisions(t *testing.T) {
 				}
 				judgeAuthz(t, u, a, s, dec, reason, err)
 			}
+		}
+		p.mu.Lock()
+		stale := p.stale
+		p.mu.Unlock()
+		if stale != "" {
+			t.Fatalf("a review was sent to an endpoint that was not a ready endpoint of its cluster at that moment (%s)\ntrace: %s", stale, trace)
 		}
 		if nt {
 			sub.NonTrivial(stats.HashString(trace))
